@@ -1059,7 +1059,16 @@ def slice_axis(n, s):
     return ft, cnt, I(step)
 
 
+def _unproxy(idx):
+    if type(idx).__name__ == "SliceProxy":
+        return idx.to_slice()
+    if isinstance(idx, tuple):
+        return tuple(_unproxy(i) for i in idx)
+    return idx
+
+
 def getitem(arr, idx):
+    idx = _unproxy(idx)
     if isinstance(idx, tuple):
         if len(idx) == 0:
             return arr
@@ -1303,6 +1312,7 @@ def same_view(a, b):
 
 def setitem(arr, idx, value):
     c = cur()
+    idx = _unproxy(idx)
     if isinstance(value, SymArr) and value.buf is arr.buf and isinstance(idx, (slice, tuple)):
         # `a[s] op= x` ends with a[s] = (the view a[s] itself): copying a view onto itself changes nothing
         try:
